@@ -36,6 +36,7 @@ PINNED = [
     "C16_cloud_commit_writes_the_log", "C16_cloud_committed_is_reported",
     "C16_restore_records_kept", "C16_restore_replay_refused", "C16_plain_restore_replay_refused",
     "C16_cloud_restart_local_version_never_lowered",
+    "C16_restore_repeated_key_refused", "C16_plain_restore_repeated_key_refused", "C16_nonvacuous_repeated_key",
     "C16_nonvacuous_plain", "C16_nonvacuous_cloud", "C16_nonvacuous_restore",
 ]
 
@@ -53,6 +54,10 @@ WHAT = {
     "restore-replay-accepted": "put_batch_unlogged accepted a record below a version it had restored for that key before: "
                                "the key's version went down (replay of an older copy)",
     "write-below-restored-version": "a write below a version restored earlier by put_batch_unlogged was accepted",
+    "list-with-conflicting-repeat-accepted": "a record list in which a key comes back at a lower version (or at the same version with "
+                                             "other content) after an earlier entry of the same list was accepted - the list is not "
+                                             "judged as handed over",
+    "get-prefix-not-the-prefixed-entries": "get_prefix did not return exactly the stored entries whose key starts with the prefix",
     "restart-changed-local-store": "the local store of the disk-backed cloud store changed across a restart",
 }
 
@@ -126,7 +131,10 @@ def run(res):
                 "and 2^32, 2^63, 2^64-2, 2^64-1, reopen points, off-protocol steps; malformed: unstructured requests, "
                 "non-ASCII / empty / reserved keys; restore: start-up shaped histories - put_batch_unlogged lists with tombstones "
                 "for keys the replica never saw, restarts, then lists and writes at older / equal / newer versions; a "
-                "fourth store, CloudKVVStore<RedbKVVStore> restarted at every reopen point, runs every sequence too. "
+                "fourth store, CloudKVVStore<RedbKVVStore> restarted at every reopen point, runs every sequence too; all "
+                "four are driven through KVVPersister<_, JsonFormat> (enter / prepare / commit / put_batch_unlogged(Mutations) "
+                "via the Persist trait, the list as given: repeated keys older-after-newer, same version other / same "
+                "content, newer-after-older); get_prefix prefixes: empty, stored keys, proper prefixes, between keys, beyond. "
                 "non-trivial: an accepted write and (a refusal, or a commit that "
                 "changed the local store, or a reopen of a non-empty store); distinct by full case term",
         "samples": [{k: v for k, v in c.items() if k not in ("coq", "alts")} for c in cases[:1] + cases[-1:]],
